@@ -30,6 +30,7 @@ import (
 	"sigs.k8s.io/karpenter/pkg/state/cost"
 	"sigs.k8s.io/karpenter/pkg/state/virtualpods"
 
+	"verif/harness/drivers/sched"
 	"verif/harness/trace"
 	"verif/harness/world"
 )
@@ -52,6 +53,9 @@ type sim struct {
 	infPool  *informer.NodePoolController
 	ncd      *ncdisruption.Controller
 	podev    *podevents.Controller
+
+	infDS  *informer.DaemonSetController
+	dsRefs map[string]metav1.OwnerReference
 
 	pools   map[string]*v1.NodePool
 	types   map[string]*cloudprovider.InstanceType
@@ -82,7 +86,8 @@ func (s *sim) catalog() []*cloudprovider.InstanceType {
 	for _, t := range s.sc.Catalog {
 		ts := world.TypeSpec{Name: t.Name, CPU: t.CPU, MemMi: t.MemMi}
 		for _, o := range t.Offerings {
-			ts.Offerings = append(ts.Offerings, world.OfferingSpec{Zone: o.Zone, CapacityType: o.CT, Price: o.Price, Available: o.Available})
+			ts.Offerings = append(ts.Offerings, world.OfferingSpec{Zone: o.Zone, CapacityType: o.CT, Price: o.Price, Available: o.Available,
+				ReservationID: o.Rid, ReservationCap: o.Rcap})
 		}
 		out = append(out, world.MakeType(ts))
 	}
@@ -257,6 +262,9 @@ func (s *sim) mkNode(n *NodeSpec) *corev1.Node {
 	if n.Tainted {
 		node.Spec.Taints = append(node.Spec.Taints, v1.DisruptedNoScheduleTaint)
 	}
+	for _, t := range n.Taints {
+		node.Spec.Taints = append(node.Spec.Taints, corev1.Taint{Key: t.Key, Value: t.Value, Effect: corev1.TaintEffect(t.Effect)})
+	}
 	world.SetNodeReady(node, !n.NotReady && (n.Stage == "initialized" || !n.Managed), at(n.CreatedAt))
 	return node
 }
@@ -274,7 +282,20 @@ func (s *sim) mkPod(p *PodSpec) *corev1.Pod {
 	if p.ToleratesDisruption {
 		o.Tolerations = []corev1.Toleration{{Key: v1.DisruptedTaintKey, Operator: corev1.TolerationOpExists}}
 	}
+	for _, t := range p.Tol {
+		o.Tolerations = append(o.Tolerations, corev1.Toleration{Key: t.Key, Operator: corev1.TolerationOperator(t.Op), Value: t.Value,
+			Effect: corev1.TaintEffect(t.Effect)})
+	}
 	pod := world.Pod(o)
+	if ref, ok := s.dsRefs[p.DS]; ok && p.DS != "" {
+		pod.OwnerReferences = []metav1.OwnerReference{ref}
+	}
+	if len(p.Sel) > 0 {
+		pod.Spec.NodeSelector = map[string]string{}
+		for k, v := range p.Sel {
+			pod.Spec.NodeSelector[sched.Key(k)] = v
+		}
+	}
 	if p.HasPriority {
 		pod.Spec.Priority = lo.ToPtr(int32(p.Priority))
 	}
@@ -340,6 +361,7 @@ func (s *sim) restart() {
 	s.infClaim = informer.NewNodeClaimController(w.Client, w.Prov, s.cluster, s.cost)
 	s.infPod = informer.NewPodController(w.Client, s.cluster)
 	s.infPool = informer.NewNodePoolController(w.Client, w.Prov, s.cluster, s.cost)
+	s.infDS = informer.NewDaemonSetController(w.Client, s.cluster)
 	s.ncd = ncdisruption.NewController(w.Clock, w.Client, w.Prov)
 	s.podev = podevents.NewController(w.Clock, w.Client, w.Prov)
 }
@@ -384,6 +406,7 @@ func (s *sim) hydrate() {
 	for i := range pods.Items {
 		s.deliver("Pod", pods.Items[i].Name, pods.Items[i].Namespace)
 	}
+	s.deliverDaemonSets()
 }
 
 // runNcDisruption runs the real nodeclaim-disruption controller (Drifted / Consolidatable) for a claim.
@@ -467,6 +490,7 @@ func (s *sim) build() error {
 			timeline = append(timeline, timed{n.DriftedAt, func() { s.runNcDisruption(claimName(nn)) }})
 		}
 	}
+	s.createDaemonSets()
 	for i := range sc.Pods {
 		w.EnvCreate(s.mkPod(&sc.Pods[i]))
 	}
